@@ -1716,9 +1716,9 @@ pub open spec fn listen_c12(evs: Seq<SEv>, cur: Option<(PktV, std::net::SocketAd
 }
 /// C07 (single-port mode): an ERROR datagram from an endpoint that owns a transfer reaches that transfer (the worker ends on it)
 /// unless that transfer has ended already; the listener never swallows it
-pub open spec fn listen_c07(evs: Seq<SEv>, cur: Option<(PktV, std::net::SocketAddr)>, known: bool) -> bool {
+pub open spec fn listen_c07(evs: Seq<SEv>, cur: Option<(PktV, std::net::SocketAddr)>, known: bool, single_port: bool) -> bool {
     match cur {
-        Some((PktV::Error { code, msg }, from)) => known ==> (evs.len() == 1 && evs[0] == (SEv::Routed { pkt: PktV::Error { code, msg }, to: from }))
+        Some((PktV::Error { code, msg }, from)) => single_port && known ==> (evs.len() == 1 && evs[0] == (SEv::Routed { pkt: PktV::Error { code, msg }, to: from }))
             || refusal(evs, ErrorCode::IllegalOperation, from),   // (the transfer's channel is closed: it has ended already)
         _ => true,
     }
